@@ -134,6 +134,16 @@ func oversizedFingerprint(fn *ssa.Function) string {
 				fmt.Fprintf(h, "%s=", v.Name())
 			}
 			h.Write([]byte(instr.String()))
+			// instr.String() abbreviates long string constants and rounds floats: two huge functions
+			// that differ only in the tail of a string literal would still share a fingerprint
+			for _, op := range instr.Operands(nil) {
+				if op == nil || *op == nil {
+					continue
+				}
+				if c, ok := (*op).(*ssa.Const); ok && c.Value != nil {
+					fmt.Fprintf(h, "|%s", c.Value.ExactString())
+				}
+			}
 			h.Write([]byte{'\n'})
 		}
 	}
